@@ -16,7 +16,7 @@ RULE = ('one run = a model (sample, synthesised graph of any block type x versio
         'distinct (initial state, effective step trace).')
 ASSUMPTIONS = ['only valid ids and permutations are issued (API preconditions)', 'geometry-data blocks cached by a NiGeometry are not deleted/replaced through the header (dangling cache inside one model: not this property)',
                'references of an added block are those its Get serialises in the model\'s version; others stay empty', 'pruning is not issued while the model has unknown blocks']
-EXPECTED_PROBES = ['op_add', 'op_delete', 'op_replace', 'op_reorder', 'op_delete_by_type', 'op_delete_by_type_orphaned', 'op_prune', 'deleted_referenced_block']
+EXPECTED_PROBES = ['op_add', 'op_delete', 'op_replace', 'op_reorder', 'op_delete_by_type', 'op_delete_by_type_orphaned', 'op_prune', 'deleted_referenced_block', 'op_replace_same_type']
 
 
 def gen_plan(seed, i, tier):
@@ -45,6 +45,8 @@ def gen_plan(seed, i, tier):
         st = {'op': op, 'block': rng.below(1 << 16)}
         if op in ('AddBlock', 'ReplaceBlock'):
             st.update({'type': rng.below(100000), 'seed': rng.below(1 << 20), 'wire': rng.below(1 << 20)})
+            if op == 'ReplaceBlock' and rng.chance(0.35):
+                st['same_type'] = True
         elif op == 'SetBlockOrder':
             st.update({'salt': rng.below(1 << 30), 'keep_root': rng.chance(0.7)})
         elif op == 'DeleteByType':
